@@ -191,5 +191,10 @@ if __name__ == "__main__":
                 ids.append(a[k])
                 k += 1
         run(ids, checks)
+    elif a[0] == "runall":
+        for d in sorted(glob.glob(os.path.join(SEEDED, "*"))):
+            if os.path.exists(os.path.join(d, "meta.json")):
+                meta = json.load(open(os.path.join(d, "meta.json")))
+                run([os.path.basename(d)], meta.get("checks_to_run") or [meta["property"]])
     elif a[0] == "table":
         table()
